@@ -633,6 +633,14 @@ def finish(res, proof, level_assumptions, checker_cmd):
             continue
         seen.add(v["key"])
         print("KNOWN-FINDING: property=%s %s" % (pid, f.get("what", v["what"])))
+    # findings that no run can reach are re-established on every run by a theorem of the property file (a `..._refuted`
+    # statement with its witness): listed when that theorem was checked just now
+    for f in findings.get("findings", []):
+        th = f.get("established_by_theorem")
+        if f.get("property") == pid and th and f.get("key") not in seen and proof_ok and th in theorems:
+            seen.add(f.get("key"))
+            cov["known_findings_reproduced"].append(f.get("key"))
+            print("KNOWN-FINDING: property=%s %s" % (pid, f.get("what", "")))
     if not new:
         print("OK property=%s tier=%s theorems=%d evaluations=%d nontrivial=%d wall=%.1fs" %
               (pid, res.tier, len(theorems), res.evaluations, cov["distinct_nontrivial"], ev["wall_s"]))
